@@ -1,12 +1,13 @@
 #!/bin/bash
 # ./seed_regress.sh [ids...] : every kept seed must still be caught by its property's quick check.
 # Applies each patch to /repo in turn (and undoes it): do not run checks concurrently.
+# SEEDTEST=<script> substitutes another seed runner with the same interface (e.g. one working on scratch copies).
 cd /verif
 ids="$@"; [ -z "$ids" ] && ids=$(ls seeded)
 miss=0
 for id in $ids; do
   p=$(python3 -c "import json;print(json.load(open('/verif/seeded/$id/meta.json'))['property'])")
-  out=$(./seedtest.sh /verif/seeded/$id $p 2>&1)
+  out=$(${SEEDTEST:-./seedtest.sh} /verif/seeded/$id $p 2>&1)
   if echo "$out" | grep -q "^VIOLATION property=$p"; then echo "caught $id ($p)"; else echo "MISSED $id ($p): $(echo "$out" | grep "^$p \|patch does\|HARNESS" | head -2)"; miss=$((miss+1)); fi
 done
 echo "seed regression: missed=$miss"
